@@ -192,6 +192,24 @@ def r4_skip_table(ctx):
         ctx.ob("R4", "skip:all-buffered", unsk == 0 and len(rows) >= 6, "every event of the skipped subtree goes through skip_event (rows %d)" % len(rows), config=cfg)
 
 
+def r7_limit_is_only_a_number(ctx):
+    """raising the limit never turns success into failure: the configured limit is stored and compared, never turned into
+    an allocation (`reserve(limit)` overflows for limits meant as "unlimited")"""
+    for cfg, F in ctx.facts.items():
+        if "overlapped-lists" not in F.features:
+            ctx.ob("R7", "not-compiled", True, "feature off", config=cfg)
+            continue
+        b = ctx.body(F, "de::Deserializer::event_buffer_size", "R7")
+        if b is None:
+            continue
+        cs = sorted({sym.short(callee_of(t)[0] or "?").split("::")[-1] for _, t in b.calls()})
+        alloc = [c for c in cs if c in ("reserve", "reserve_exact", "with_capacity", "resize", "try_reserve", "shrink_to", "extend")]
+        stores = 0
+        for p in ctx.paths(b):
+            stores = max(stores, len([e for e in p if e[0] == "store" and is_self_field(e[2], "limit")]))
+        ctx.ob("R7", "event_buffer_size:plain-setter", not alloc and stores == 1, "event_buffer_size stores the limit and allocates nothing (calls: %s)" % cs, config=cfg)
+
+
 def r6_read_to_end(ctx):
     """Deserializer::read_to_end (overlapped lists): buffered events are dropped with a depth count of same-named
     Start/End; when the buffer runs dry the reader skips one nesting level per round, and every round that does not
@@ -283,7 +301,7 @@ def r5_seq_table(ctx):
                    "an element is deserialized as an item exactly when the filter says it is suitable; otherwise it is skipped (overlapped lists) or ends the list: suitable -> %s, not suitable -> %s" % (sorted(suited.get(True, [])), sorted(suited.get(False, []))), config=cfg)
 
 
-RULES = [("R1", r1_limit), ("R2", r2_pairing), ("R3", r3_replay_order), ("R4", r4_skip_table), ("R5", r5_seq_table), ("R6", r6_read_to_end)]
+RULES = [("R1", r1_limit), ("R2", r2_pairing), ("R3", r3_replay_order), ("R4", r4_skip_table), ("R5", r5_seq_table), ("R6", r6_read_to_end), ("R7", r7_limit_is_only_a_number)]
 
 
 def THOROUGH_EXTRA(ctx):
